@@ -10,8 +10,11 @@ def run(ctx):
     r = ctx.tlc("strings", "mc/MC_Strings.tla", "mc/MC_Strings.cfg", {"K": k}, min_states=24000, timeout=3400, heap="14g")
     ctx.replay("strings-scan", "lex", r["dump"], min_cases=24000)
     ctx.replay("strings-parse-eval", "lexparse", r["dump"], min_cases=24000)
+    # random texts up to 200 bytes written by a reference escaper with random equivalent forms (also astral characters)
+    tr = ctx.record("strings-random", "parse", ["-mode", "strings", "-maxlen", 200 if ctx.thorough else 80, "-n", 30000 if ctx.thorough else 2500])
+    ctx.validate("strings-random-validate", "trace/Trace_Parse.tla", "trace/Trace_Parse.cfg", tr, "parse", shards=14 if ctx.thorough else 4, timeout=3400)
     return ctx.finish(
         rule="every text of <= %d characters over the 20-character alphabet x every vector of equivalent escape forms x both "
              "quote styles x {closed, left open}; compared: token kind/extent/decoded bytes, rejection, evaluated text; "
-             "non-trivial = closed literals without a raw line break" % k,
+             "plus seeded random texts escaped with random equivalent forms and validated by Trace_Parse; non-trivial = closed literals without a raw line break" % k,
         assumptions=["malformed escapes (\\\\xZ, short \\\\u12), unknown escapes (\\\\q) and backslash-newline are unpinned"])
